@@ -40,3 +40,24 @@ Theorem C06_own_round_adjacent : own_round_adjacent_stmt.  Proof. exact own_roun
 Print Assumptions C06_own_round_adjacent.
 Theorem C06_own_round_2p52 : own_round_2p52_stmt.  Proof. exact own_round_2p52. Qed.
 Print Assumptions C06_own_round_2p52.
+
+(* the free functions SetBufNByte[U]Double and the setters with a caller-chosen UndefVal (Model/NumDefs.v, last part) *)
+From N2kV Require Import Spec.NumSpec3 Proofs.NumProofs3.
+Theorem C06_set_buf8_na : set_buf8_na_stmt.  Proof. exact set_buf8_na. Qed.
+Print Assumptions C06_set_buf8_na.
+Theorem C06_add_undef : add_undef_stmt.  Proof. exact add_undef. Qed.
+Print Assumptions C06_add_undef.
+Theorem C06_add_undef_roundtrip : add_undef_roundtrip_stmt.  Proof. exact add_undef_roundtrip. Qed.
+Print Assumptions C06_add_undef_roundtrip.
+Theorem C06_add_default : add_default_stmt.  Proof. exact add_default. Qed.
+Print Assumptions C06_add_default.
+Theorem C06_reserved_stays_reserved : reserved_stays_reserved_stmt.  Proof. exact reserved_stays_reserved. Qed.
+Print Assumptions C06_reserved_stays_reserved.
+(* non-vacuity: UndefVal 0.0 and the value -0.0 (IEEE equal), 2-byte unsigned field, precision 0.01; and N2kDoubleNA through the 8-byte free function *)
+Example C06_undef_nonvacuous :
+  ieee_eq 9223372036854775808 0 = true
+  /\ add_double_u 2%nat false 9223372036854775808 4576918229304087675 0 = (255 :: 255 :: nil)%Z
+  /\ set_buf_double 8%nat true na_double_bits 4576918229304087675 = (255 :: 255 :: 255 :: 255 :: 255 :: 255 :: 255 :: 127 :: nil)%Z
+  /\ ieee_eq 4607182418800017408 0 = false.
+Proof. repeat split; vm_compute; reflexivity. Qed.
+Print Assumptions C06_undef_nonvacuous.
